@@ -162,6 +162,12 @@ def listcomp(eng, n, fr):
             return ConstSeq(eng.eval_gen_const(items, n.generators[0], n, fr))
     q = eng.quantified_gen(gen, 'elems')
     _, vars_, guard, elt, coll = q
+    if has_list_literal(elt):
+        if isinstance(coll, ListV) and len(vars_) == 1 and not n.generators[0].ifs:
+            c = CompV('list', vars_[0], guard, elt, coll)
+            c.length = eng.list_len(coll)     # length of the source when the comprehension is evaluated
+            return c
+        raise Unsupported('comprehension building fresh lists over a filtered / non-list source')
     ety = eng.value_type(elt)
     if isinstance(ety, TOpt) or ety == NONE:
         raise Unsupported('list comprehension with None elements')
@@ -263,7 +269,10 @@ def list_method(eng, l, name, args, kw, line):
                 eng.partial(n > idx, 'IndexError', line)
                 v = eng.list_get(l, z3.IntVal(idx))
                 j = z3.Const('j!pop', I)
-                row = eng.def_array([j], z3.If(j >= idx, da[l.ref][j + 1], da[l.ref][j]))
+                # only the cells of the new list are defined (guarded quantifier: the finite counter-model search can expand it)
+                row = eng.run.fresh('popped', da[l.ref].sort())
+                eng.run.assume(z3.ForAll([j], z3.Implies(z3.And(0 <= j, j < n - 1),
+                                                         row[j] == z3.If(j >= idx, da[l.ref][j + 1], da[l.ref][j]))), silent=True)
                 eng.heap.set(nm, z3.Store(da, l.ref, row))
                 eng.heap.set('L.len', z3.Store(ln, l.ref, n - 1))
                 return v
@@ -316,3 +325,91 @@ def list_method(eng, l, name, args, kw, line):
         eng.heap.set('L.len', z3.Store(ln, l.ref, n + 1))
         return None
     raise Unsupported(f'list method {name} at line {line}')
+
+
+# ---------------------------------------------------------------------------------------------------------------------
+# comprehensions whose element is a literal of fresh lists: bulk allocation through Skolem functions
+def has_list_literal(v):
+    if isinstance(v, ConstSeq):
+        return v.kind == 'list' or any(has_list_literal(x) for x in v.items)
+    if isinstance(v, tuple):
+        return any(has_list_literal(x) for x in v)
+    return False
+
+
+class _Bulk:
+    """allocates, for every value of the bound variable `v` selected by `guard`, the lists of a literal: list number n
+    of the literal is sk_n(v) (fresh, pairwise distinct, distinct from everything allocated before), inv_n its inverse;
+    the heap arrays are redefined exactly on the range of the sk_n"""
+
+    def __init__(self, eng, v, guard):
+        self.eng, self.v, self.guard, self.sks = eng, v, guard, []
+
+    def term(self, val, ty):
+        eng = self.eng
+        if isinstance(ty, TList) and isinstance(val, ConstSeq) and val.kind == 'list':
+            return self.new_list([self.term(x, ty.t) for x in val.items], ty.t)
+        if isinstance(ty, TTuple) and (isinstance(val, tuple) or isinstance(val, ConstSeq)):
+            items = val.items if isinstance(val, ConstSeq) else list(val)
+            if len(items) != len(ty.ts):
+                raise Unsupported('tuple literal does not fit its declared type')
+            return sort_of(ty).mk(*[self.term(x, t) for x, t in zip(items, ty.ts)])
+        if has_list_literal(val):
+            raise Unsupported(f'list literal inside a comprehension where {ty} is declared')
+        return eng.coerce_term(val, ty)
+
+    def new_list(self, item_terms, ety):
+        eng, v, guard = self.eng, self.v, self.guard
+        S = v.sort()
+        eng.run.fresh_n += 1
+        n = eng.run.fresh_n
+        sk = z3.Function(f'sk!{n}', S, Ref)
+        inv = z3.Function(f'skinv!{n}', Ref, S)
+        al = eng.heap.get('alloc', arr(Ref, B))
+        eng.run.assume(z3.ForAll([v], z3.Implies(guard, z3.And(z3.Not(al[sk(v)]), sk(v) != NULL, kind_of(sk(v)) == KINDS['list'],
+                                                               inv(sk(v)) == v))), silent=True)
+        v2 = z3.Const(f'v2!bulk{n}', S)
+        for sk2 in self.sks:
+            eng.run.assume(z3.ForAll([v, v2], z3.Implies(z3.And(guard, z3.substitute(guard, (v, v2))), sk(v) != sk2(v2))), silent=True)
+        self.sks.append(sk)
+        r = z3.Const(f'r!bulk{n}', Ref)
+        owner = z3.And(z3.substitute(guard, (v, inv(r))), sk(inv(r)) == r)
+        eng.heap.set('alloc', eng.def_array([r], z3.Or(al[r], owner)))
+        ln = eng.heap.get('L.len', arr(Ref, I))
+        eng.heap.set('L.len', eng.def_array([r], z3.If(owner, z3.IntVal(len(item_terms)), ln[r])))
+        if item_terms:
+            name, da = eng.list_data(ListV(NULL, ety))
+            row = da[r]
+            for i, it in enumerate(item_terms):
+                row = z3.Store(row, i, z3.substitute(it, (v, inv(r))))
+            eng.heap.set(name, eng.def_array([r], z3.If(owner, row, da[r])))
+        return sk(v)
+
+
+def bulk_materialize(eng, comp, ty):
+    if isinstance(ty, TOpt):
+        ty = ty.t
+    v, guard = comp.var, comp.guard
+    bulk = _Bulk(eng, v, guard)
+    if comp.kind == 'list' and isinstance(ty, TList):
+        et = bulk.term(comp.elt, ty.t)
+        r = eng.alloc('list')
+        nl = ListV(r, ty.t)
+        ln = eng.heap.get('L.len', arr(Ref, I))
+        eng.heap.set('L.len', z3.Store(ln, r, comp.length))
+        name, da = eng.list_data(nl)
+        row = eng.run.fresh('comp', arr(I, sort_of(ty.t)))
+        eng.run.assume(z3.ForAll([v], z3.Implies(guard, row[v] == et)), silent=True)
+        eng.heap.set(name, z3.Store(da, r, row))
+        return nl
+    if comp.kind == 'dict' and isinstance(ty, TDict) and sort_of(ty.k) == v.sort():
+        vt = bulk.term(comp.elt, ty.v)
+        d = eng.new_dict(ty.k, ty.v)
+        hn, ha = eng.dict_has(d)
+        eng.heap.set(hn, z3.Store(ha, d.ref, eng.def_array([v], guard)))
+        vn, va = eng.dict_val(d)
+        vals = eng.run.fresh('compv', va[d.ref].sort())
+        eng.run.assume(z3.ForAll([v], z3.Implies(guard, vals[v] == vt)), silent=True)
+        eng.heap.set(vn, z3.Store(va, d.ref, vals))
+        return d
+    raise Unsupported(f'comprehension of fresh lists stored where {ty} is declared')
